@@ -14,19 +14,24 @@ MCSecretVia  == {"none", "flag", "env", "yaml"}
 MCOutUrls    == {"https-name", "http-name", "https-ip", "http-ip", "https-reserved", "https-redirect-http"}
 MCOutEntries == {"strict-client", "rfc003", "iam-clientmetadata", "iam-presentationdefinition", "iam-asmetadata", "iam-openidconfig",
                  "iam-issuermetadata", "iam-requestobject-get", "iam-requestobject-post", "iam-posterror", "iam-postresponse",
-                 "iam-accesstoken", "iam-credentials"}
+                 "iam-accesstoken", "iam-credentials",
+                 \* long-lived clients of the engines, and clients built before anything was configured
+                 "vdr-didweb", "vcr-statuslist", "vcr-openid4vci-wallet", "vcr-openid4vci-issuer", "discovery-get",
+                 "early-new", "early-cache", "early-tls"}
 MCContexts   == {"embedded", "listed", "unlisted"}
 MCAllowLists == {"default", "with-url"}
 
 \* the action guards read v.strict and v.dummy only: emit the (vector x action) cases from one canonical vector per (strict, dummy)
-Canonical == /\ v.url = "https-name" /\ v.tls = "on" /\ v.crypto = "fs" /\ v.sql = "sqlite" /\ v.irma = "pbdf" /\ v.did = "web,nuts"
-             /\ v.moved = None /\ v.secret = None
+MCActCanonical(vv) == /\ vv.url = "https-name" /\ vv.tls = "on" /\ vv.crypto = "fs" /\ vv.sql = "sqlite" /\ vv.irma = "pbdf" /\ vv.did = "web,nuts"
+                      /\ vv.moved = None /\ vv.secret = None
+MCActAll(vv) == TRUE
+Canonical == MCActCanonical(v)
 \* one JSON line per decided start-up and per (canonical vector, action)
 Emit == /\ (Decided /\ act = NoAct) => PrintT(ToJson([t |-> "start", v |-> v, accepted |-> Accepted, by |-> by, why |-> why,
                                                        insecure |-> InsecureSetting(v), unusable |-> UrlUnusable(v.url)]))
         /\ (act # NoAct /\ Canonical) => PrintT(ToJson([t |-> "act", strict |-> v.strict, dummy |-> v.dummy, act |-> act, verdict |-> verdict,
-                                                         plain |-> IF act.kind = "outbound" THEN PlainHttpSent(v, act.arg, act.entry) ELSE FALSE,
+                                                         plain |-> IF act.kind = "outbound" THEN PlainHttpSent(v, act.arg, act.entry, flag, snap) ELSE FALSE,
                                                          \* the same action on a client constructed directly with the strict flag
-                                                         standalone |-> IF act.kind = "outbound" THEN OutboundVerdictWith(v, act.arg, act.entry, TRUE)
+                                                         standalone |-> IF act.kind = "outbound" THEN OutboundVerdictWith(v, act.arg, act.entry, TRUE, flag, snap)
                                                                         ELSE verdict]))
 =============================================================================
